@@ -121,6 +121,16 @@ func cmdCheck(args []string) int {
 	for _, e := range cs.Errors {
 		fmt.Fprintln(os.Stderr, "contract error:", e)
 	}
+	loadRecordedNames(*verif)
+	if *updateExpected && *only == "" {
+		var fns []*ssa.Function
+		for k := range cs.ByKey {
+			if fn := prog.Funcs[k]; fn != nil {
+				fns = append(fns, fn)
+			}
+		}
+		prog.updateRecordedNames(fns)
+	}
 	ctx := &Ctx{Prog: prog, Reg: NewRegistry(), CS: cs, Unspec: map[string]bool{}, Assumed: map[string]bool{}, Outside: map[string]bool{},
 		optSumm: map[*ssa.Function]*optSummary{}, loopInfo: map[*ssa.Function]*loopInfo{}, modCache: map[*ssa.Function]map[string]bool{}}
 
